@@ -7,5 +7,7 @@ PROP = dict(
     rule='case = (victim role, version, suite, client-auth, event point k or established, event of 8 kinds, 1-8 continuation steps of 8 kinds, chunking); non-trivial = the session died and the continuation contained an input that would otherwise have been accepted (valid next record, original of the corrupted record, application encode); distinct by (role, version, point, event, death cause)',
     assumptions=[],
     targets=[dict(name='c15_stays_dead', src=['props/C15/stays_dead.cc', 'harness/wraps.c'], wraps=WRAPS, env={'VERIF_DIR': '/verif'},
-                  quick=dict(cases=5000, secs=80), thorough=dict(cases=200000, secs=1200))],
+                  quick=dict(cases=5000, secs=80), thorough=dict(cases=200000, secs=1200)),
+             dict(name='c15_alert_sweep', src=['props/C15/stays_dead.cc', 'harness/wraps.c'], wraps=WRAPS, env={'VERIF_DIR': '/verif'}, defs=['C15_ALERT_SWEEP'], enumerate=True,
+                  quick=dict(cases=0, secs=60, stride=1), thorough=dict(cases=0, secs=300, stride=1))],
 )
